@@ -870,6 +870,9 @@ func (handler *Handler) QueryResponseHandler(ctx context.Context, packet *Packet
 	}
 
 	// proxy output
+	// The response handler was reset at the beginning and must not be touched after the last write: as soon as
+	// the client has the complete response it may send the next command, and the client-side handler then installs
+	// the response handler for that command.
 	handler.logger.Debugln("Proxy output")
 	for _, dumper := range output {
 		if _, err := clientConnection.Write(dumper.Dump()); err != nil {
@@ -878,7 +881,6 @@ func (handler *Handler) QueryResponseHandler(ctx context.Context, packet *Packet
 			return err
 		}
 	}
-	handler.resetQueryHandler()
 	handler.logger.Debugln("Query handler finish")
 	return nil
 }
@@ -901,20 +903,22 @@ func (handler *Handler) PreparedStatementResponseHandler(ctx context.Context, pa
 	preparedStmt := NewPreparedStatement(response.StatementID, response.ParamsNum, queryObj.Query(), statement)
 	handler.registry.AddStatement(NewPreparedStatementItem(preparedStmt, nil))
 
-	// proxy output
-	handler.logger.Debugln("PreparedStatementResponseHandler.Proxy output")
-	if _, err := clientConnection.Write(packet.Dump()); err != nil {
-		handler.logger.WithError(err).WithField(logging.FieldKeyEventCode, logging.EventCodeErrorNetworkWrite).
-			Debugln("Can't proxy output")
-		return err
-	}
-
+	// choose the handler of what follows before the packet is written: when nothing follows, the client may send
+	// its next command as soon as it has this packet, and the client-side handler installs the handler for it
 	handler.resetQueryHandler()
 	// if prams_num > 0 params definition block will follow
 	// https://dev.mysql.com/doc/internals/en/com-stmt-prepare-response.html
 	if response.ParamsNum > 0 {
 		fieldTracker := NewPreparedStatementFieldTracker(handler, response.ColumnsNum)
 		handler.setQueryHandler(fieldTracker.ParamsTrackHandler)
+	}
+
+	// proxy output
+	handler.logger.Debugln("PreparedStatementResponseHandler.Proxy output")
+	if _, err := clientConnection.Write(packet.Dump()); err != nil {
+		handler.logger.WithError(err).WithField(logging.FieldKeyEventCode, logging.EventCodeErrorNetworkWrite).
+			Debugln("Can't proxy output")
+		return err
 	}
 	handler.logger.Debugln("Prepared Statement registered successfully")
 	return nil
